@@ -1,3 +1,4 @@
+import Hannibal.Props.CancelErrCurrent
 import Hannibal.Props.SendErrCurrent
 import Hannibal.Props.C02CCurrent
 import Hannibal.Props.C02Current
@@ -13,3 +14,5 @@ import Hannibal.Props.C02Guarded
 #print axioms Hannibal.C02c_current
 #print axioms Hannibal.SendErr_holds
 #print axioms Hannibal.SendErr_current
+#print axioms Hannibal.CancelErr_holds
+#print axioms Hannibal.CancelErr_current
